@@ -131,6 +131,8 @@ fn body(fen: &str, ks: &[usize], gos: usize) {
     let ks_text = format!("{:?}", ks);
     if let Some(l) = c.livelock.lock().unwrap().clone() {
         violate("C08", if pos.legal_moves().is_empty() { "no-answer/root-without-legal-move" } else { "no-answer" }, format!("{} expiry {}: livelock: {}", fen, ks_text, l));
+        // never answered = an unbounded delay between go and bestmove
+        violate("C09", "delay-unbounded/go-never-answered", format!("{} expiry {}: the go is never answered although the planned time has passed", fen, ks_text));
         outcome.push("livelock".into());
     }
     let mut io_died = false;
@@ -162,7 +164,7 @@ fn body(fen: &str, ks: &[usize], gos: usize) {
             break;
         }
         let (line, expired_at_capture, _) = best[0];
-        let text = line.trim_start_matches("bestmove ").to_string();
+        let text = line.split_whitespace().nth(1).unwrap_or("").to_string();
         outcome.push(text.clone());
         // (a null-move answer on a finished game is given at once: there is nothing to think about)
         if !*expired_at_capture && !legal.is_empty() {
